@@ -677,8 +677,9 @@ func sessionChargingReservation(
 				requestedVolume = uint32(unitUsage.RequestedUnit.TotalVolume)
 			}
 
-			usedQuota := uint64(totalUsedUnit * ue.UnitCost[rg])
-			requestedQuota = uint64(requestedVolume * ue.UnitCost[rg])
+			// the products are amounts of money: they must not wrap at 32 bits
+			usedQuota := uint64(totalUsedUnit) * uint64(ue.UnitCost[rg])
+			requestedQuota = uint64(requestedVolume) * uint64(ue.UnitCost[rg])
 			ue.ReservedQuota[rg] -= int64(usedQuota)
 			// keep the reservation topped up to the requested quota, so that every unit
 			// granted below is backed by money already taken from the account
@@ -723,6 +724,12 @@ func sessionChargingReservation(
 				if ue.ReservedQuota[rg] > 0 {
 					monetaryQuota = uint64(ue.ReservedQuota[rg])
 				}
+			}
+
+			// the Monetary-Quota AVP is 32 bits wide: a larger quota is rated as the largest one it can carry
+			// (fewer units are granted than were asked for, never more than the money buys)
+			if monetaryQuota > math.MaxUint32 {
+				monetaryQuota = math.MaxUint32
 			}
 
 			sur.ServiceRating = &charging_datatype.ServiceRating{
